@@ -80,7 +80,7 @@ func payloadFor(step int, rng *rand.Rand) []byte {
 func (comp) Gen(prop string, rng *rand.Rand, tier string) *core.History {
 	h := &core.History{}
 	kind := rng.Intn(2)
-	chunks := core.Pick(rng, []uint64{1, 1, 2, 4})
+	chunks := core.Pick(rng, []uint64{1, 1, 2, 4, 3, 5, 7}) // also counts that are not powers of two: routing is hash MOD count
 	if prop == "C13" && core.Chance(rng, 1, 3) {
 		chunks = 1 // the FIFO clause is about one chunk
 	}
@@ -129,6 +129,10 @@ func (comp) Gen(prop string, rng *rand.Rand, tier string) *core.History {
 	sizes := []int64{0, 1, 1, 2, 3, 10, 10, int64(maxBytes) + 1}
 	if maxBytes > 1000 {
 		sizes = []int64{0, 1, 1, 2, 3, 10, 10, 1000}
+	}
+	if core.Chance(rng, 1, 12) {
+		// sizes at the edge of the 32-bit types the limits are declared in (the byte counter is an int)
+		sizes = append(sizes, 1<<31, 1<<32, 1<<32+3, 1<<40)
 	}
 	pickKey := func() []byte { return keyName(rng.Intn(nkeys)) }
 	nops := 15 + rng.Intn(45)
